@@ -195,6 +195,31 @@ CLAIMS: dict[str, tuple[str, str, str, str]] = {
         "Lean 4 proof (staging invariant of the dispatch loop under rule contracts) + contract monitoring + map predicate oracle",
         "§6 C03",
     ),
+    "C08": (
+        "PARTIAL, with FULL theorems for the mechanisms: cutGo_spec/cutLine_spec (StateBlock.getLines, per line: only "
+        "leading blanks or container-prefix characters are removed, everything else unaltered and in order, at most 3 pad "
+        "spaces and only after a partially consumed tab — for every line, tShift, bsCount, indent), codespan_spec/"
+        "codespan_keeps (line endings to spaces, one space stripped from each side iff both present and not all spaces), "
+        "hr_markup (marker repeated exactly as often as it occurs; line = markers and blanks). MISSING: that code_block/"
+        "fence/html_block content is the stated getLines call and fence/heading/list markup the scanned run (rules not "
+        "modelled): oracle reconstructs every content line from its source line and counts markers. Tie: every real "
+        "getLines call, code span and hr traced and compared with the model.",
+        NOTE,
+        "Lean 4 proof (loop invariant of the indent-stripping scan; string lemmas) + per-call traces + reconstruction oracle",
+        "§6 C08",
+    ),
+    "C10": (
+        "PARTIAL, with FULL theorems for: chain_only_enabled/getRules_only_enabled (a disabled rule is in no compiled chain, "
+        "main or terminator: never dispatched; after any history by C11), facade_switches (tokenizer and post-processor of a "
+        "name are switched together in all four rulers), routes/setOpt_other/dictGet_dictSet (the three option routes are one "
+        "assignment on one backing dict), definition_renders_empty. MISSING: provenance of token kinds per rule and the "
+        "conservative-extension clause need per-rule models: decided by the oracle (token kinds under random rule subsets; "
+        "table/strikethrough on vs off on trigger-free inputs; definition options erase to the plain parse, env and HTML equal; "
+        "switches issued while a render is in flight). Tie: Ruler/facade/options model of C11/C12 + route requests.",
+        NOTE,
+        "Lean 4 proof (chain membership, option dict laws) + provenance/extension oracle",
+        "§6 C10",
+    ),
 }
 
 PENDING_REASON = "check under construction in this session (Lean model + theorems not yet committed); not claimed until its check exists"
